@@ -703,19 +703,51 @@ def R4c_pair_loaders(run):
     # the swap sequence builder's per-account loader: an initialised account is loaded through load_tick_array_mut with this
     # pool's key and every error of the loader (foreign pool, wrong owner, wrong discriminator) is the builder's error; only an
     # empty system-owned account is "not there"
-    ml = facts.need_fn("util::sparse_swap::maybe_load_tick_array")
-    run.touch(ml)
-    cs = calls_to(ml, ends("load_tick_array_mut"))
-    ok = len(cs) == 1 and (arg_name(cs[0][2][0]) in ("account_info",) or is_param(cs[0][2][0], ml.param_names()[0])) and \
-        mentions(cs[0][2][1], lambda t: t[0] == "param" and t[1] == ml.param_names()[1]) and bool(cfg.result_checked(ml, cs[0][0]))
-    run.check("R4c", "sequence-loader-propagates", ok, "maybe_load_tick_array does not hand every error of load_tick_array_mut(account, pool key) to its caller "
-              "(an account of another pool would be skipped instead of rejected)", loc=ml.loc(), detail="load_tick_array_mut(account_info, &whirlpool.key())?")
-    none_ok = False
-    for at in A.atoms(ml):
-        s_ = show(at.term, True)
-        if "data_is_empty" in s_ or "owner" in s_:
-            none_ok = True
-    run.check("R4c", "sequence-loader-empty-only", none_ok, "maybe_load_tick_array no longer distinguishes the empty system-owned account", loc=ml.loc(), detail="Ok(None) only for an empty system account")
+    f = sequence_loader(facts)
+    tb = f["fn"]
+    run.touch(tb)
+    run.check("R4c", "sequence-loader-propagates", f["load"] and f["checked"], "try_build (with maybe_load_tick_array spliced in) does not hand every error of load_tick_array_mut(supplied account, "
+              "pool key) to its caller (an account of another pool would be skipped instead of rejected): %s" % f["why"], loc=tb.loc(), detail="load_tick_array_mut(account_info, &whirlpool.key())?")
+    run.check("R4c", "sequence-loader-empty-only", f["skip_only_empty"], "the per-account loader of try_build skips accounts on a test other than owner == system program && data_is_empty: %s" % f["why"],
+              loc=tb.loc(), detail="Ok(None) only for an empty system account")
+
+
+def sequence_loader(facts):
+    """The per-account loader of the swap sequence builder, read on try_build with maybe_load_tick_array spliced in (whether the
+    helper exists or was written into the loop makes no difference): the one load_tick_array_mut call, its arguments, whether its
+    error is the builder's error, and the tests that can skip it."""
+    tb = facts.need_fn("util::sparse_swap::SparseSwapTickSequenceBuilder::<'info>::try_build")
+    out = {"fn": tb, "load": False, "checked": False, "skip_only_empty": False, "pushed": False, "why": ""}
+    cs = calls_to(tb, ends("load_tick_array_mut"))
+    if len(cs) != 1:
+        out["why"] = "%d calls to load_tick_array_mut" % len(cs)
+        return out
+    L, _, args = cs[0]
+    from_accounts = mentions(args[0], lambda t: t[0] == "call" and t[1].endswith("::next")) and mentions(args[0], lambda t: t[0] == "field" and t[2] == "tick_array_accounts")
+    k = strip(args[1])
+    pool_key = k[0] == "call" and k[1].rsplit("::", 1)[-1] == "key" and len(k[2]) == 1 and is_param(strip(k[2][0]), "whirlpool")
+    out["load"] = bool(from_accounts and pool_key)
+    if not out["load"]:
+        out["why"] = "load_tick_array_mut(%s, %s)" % (sh(args[0], 60), sh(args[1], 60))
+    out["checked"] = bool(cfg.result_checked(tb, L))
+    if not out["checked"]:
+        out["why"] += "; its error is not propagated"
+    nxt = [c[0] for c in calls_to(tb, lambda p: p.endswith("::next")) if cfg.dominates(tb, c[0], L)]
+    if not nxt:
+        out["why"] += "; no account loop around the load"
+        return out
+    N = nxt[-1]
+    region = {b for b in cfg.reach(tb, N, cut_blocks=[L]) if L in cfg.reach(tb, b, cut_blocks=[N])}
+    tests = [at for at in A.atoms(tb) if at.block in region]
+    bad = [at for at in tests if not ("data_is_empty" in show(at.term, True) or mentions(at.term, lambda t: t[0] == "field" and t[2] == "owner"))]
+    out["skip_only_empty"] = bool(tests) and not bad and any("data_is_empty" in show(at.term, True) for at in tests)
+    if bad:
+        out["why"] += "; the load is also skipped on %s" % sh(bad[0].term, 80)
+    elif not tests:
+        out["why"] += "; nothing distinguishes the empty system-owned account"
+    pushes = [c for c in calls_to(tb, lambda p: p.endswith("Vec::<T, A>::push")) if mentions(c[2][1], lambda t: t[0] == "call" and t[1].endswith("load_tick_array_mut"))]
+    out["pushed"] = len(pushes) >= 1
+    return out
 
 
 RULES = [R4c_pair_loaders, R1_token_accounts, R3_back_references, R4_loaders_and_unchecked, R5_pinocchio_superset, R5b_remaining_accounts]
